@@ -519,6 +519,121 @@ func genSeries(r *rand.Rand) ruleSet {
 	return set
 }
 
+// addConfig decorates a rule set with configure-time directives: SecDefaultAction for some phases (placed
+// at the top or in the middle of the file: it only reaches rules read after it), rules that say block or
+// carry no disruptive action at all (they inherit the default one), SecRuleRemoveById with ids, ranges, 0
+// (the first SecMarker) and unknown ids at the end or in the middle of the file, and range forms of
+// ctl:ruleRemoveById.
+func addConfig(r *rand.Rand, set ruleSet) ruleSet {
+	rules := append([]ruleJ{}, set.Rules...)
+	maxID := 0
+	for _, x := range rules {
+		if x.ID > maxID {
+			maxID = x.ID
+		}
+	}
+	// block / inherit
+	for i := range rules {
+		x := &rules[i]
+		if x.Marker != "" || len(x.Links) == 0 {
+			continue
+		}
+		hasDis := false
+		for _, a := range x.Acts {
+			if a.A == "allow" || a.A == "deny" {
+				hasDis = true
+			}
+		}
+		switch {
+		case !hasDis && r.Intn(100) < 55:
+			if r.Intn(2) == 0 {
+				x.Inherit = true
+			} else {
+				acts := append([]actJ{}, x.Acts...)
+				k := r.Intn(len(acts) + 1)
+				acts = append(acts[:k], append([]actJ{{A: "block"}}, acts[k:]...)...)
+				x.Acts = acts
+			}
+		case hasDis && r.Intn(100) < 15:
+			acts := append([]actJ{}, x.Acts...)
+			for k := range acts {
+				if acts[k].A == "allow" || acts[k].A == "deny" {
+					acts[k] = actJ{A: "block"}
+				}
+			}
+			x.Acts = acts
+		}
+	}
+	// ctl ranges
+	for i := range rules {
+		for j := range rules[i].Links {
+			if r.Intn(14) == 0 && maxID > 0 {
+				lo := r.Intn(maxID + 1)
+				hi := lo + r.Intn(3)
+				links := append([]linkJ{}, rules[i].Links...)
+				links[j].RmR = append(append([][2]int{}, links[j].RmR...), [2]int{lo, hi})
+				rules[i].Links = links
+			}
+		}
+	}
+	insert := func(at int, d ruleJ) {
+		rules = append(rules[:at], append([]ruleJ{d}, rules[at:]...)...)
+	}
+	// SecRuleRemoveById
+	for n := r.Intn(3); n > 0; n-- {
+		var toks []string
+		for k := 1 + r.Intn(2); k > 0; k-- {
+			switch x := r.Intn(10); {
+			case x < 5:
+				toks = append(toks, fmt.Sprint(1+r.Intn(maxID+1)))
+			case x < 8:
+				lo := r.Intn(maxID + 1)
+				toks = append(toks, fmt.Sprintf("%d-%d", lo, lo+r.Intn(3)))
+			default:
+				toks = append(toks, "0")
+			}
+		}
+		at := len(rules)
+		if r.Intn(2) == 0 {
+			at = r.Intn(len(rules) + 1)
+		}
+		insert(at, ruleJ{Remove: toks})
+	}
+	// SecDefaultAction
+	// phases that hold rules saying block / nothing disruptive first
+	var phases []int
+	seenPh := map[int]bool{}
+	for _, x := range rules {
+		if x.Phase == 0 || seenPh[x.Phase] {
+			continue
+		}
+		inh := x.Inherit
+		for _, a := range x.Acts {
+			inh = inh || a.A == "block"
+		}
+		if inh {
+			seenPh[x.Phase] = true
+			phases = append(phases, x.Phase-1)
+		}
+	}
+	for _, q := range r.Perm(5) {
+		if !seenPh[q+1] {
+			phases = append(phases, q)
+		}
+	}
+	for n := 1 + r.Intn(2); n > 0; n-- {
+		da := []string{"deny", "allow", "allow:phase", "allow:request", "pass", "deny", "allow"}[r.Intn(7)]
+		at := 0
+		if r.Intn(4) == 0 {
+			at = r.Intn(len(rules) + 1)
+		}
+		insert(at, ruleJ{Default: &defaultJ{Phase: phases[n-1] + 1, DA: da}})
+	}
+	set.Rules = rules
+	set.Shape = "config+" + set.Shape
+	return set
+}
+
 func hasMarkerAfterJumper(rules []ruleJ, m string) bool {
 	seenJumper := false
 	for _, r := range rules {
@@ -573,6 +688,35 @@ func generate(cfg vh.Config) []ruleSet {
 		if i%11 == 10 {
 			s := genSeries(r)
 			s.Shape += "/sampled"
+			total += len(s.Reqs)
+			sets = append(sets, s)
+			continue
+		}
+		if i%11 == 3 || i%11 == 7 {
+			var s ruleSet
+			mk := 48
+			if i%2 == 0 {
+				mk = 2 + r.Intn(exhaustiveKeys-1)
+			}
+			switch r.Intn(4) {
+			case 0:
+				s = genRandom(r, mk)
+			case 1:
+				s = genPlacement(r, mk)
+			case 2:
+				s = genRemoval(r, mk)
+			default:
+				s = genEngineSwitch(r, mk)
+			}
+			s = addConfig(r, s)
+			n := nKeys(s.Rules)
+			if n <= exhaustiveKeys {
+				s.Reqs = allSubsets(n)
+				s.Shape += "/all-subsets"
+			} else {
+				s.Reqs = randomReqs(r, n, cfg.Pick(6, 12))
+				s.Shape += "/sampled"
+			}
 			total += len(s.Reqs)
 			sets = append(sets, s)
 			continue
